@@ -47,8 +47,9 @@ def run(ctx):
     l3, s3 = cc.run_scenarios(ctx, [x + 100 for x in seeds2], 60 if q else 200,
                               extra=["-schedule", sched, "-validators", "4", "-maxvals", "3", "-maxperentity", "2", "-extranodes", "2",
                                      "-tiedstake", "-epoch", "4"])
-    lines += l2 + l3
-    sums += s2 + s3
+    l4, s4 = cc.run_scenarios(ctx, [x + 200 for x in seeds2], 60 if q else 200, extra=["-schedule", sched] + cc.VRF)
+    lines += l2 + l3 + l4
+    sums += s2 + s3 + s4
     t = cc.totals(sums)
     for s in sums:
         for dv in (s.get("diverged") or [])[:1]:
